@@ -9,8 +9,8 @@ import time
 VERIF = os.path.dirname(os.path.dirname(os.path.abspath(__file__)))
 REPO = os.environ.get('VERIF_REPO', '/repo')
 WORK = os.environ.get('VERIF_WORK', os.path.join(VERIF, 'work'))
-BUILD = os.path.join(VERIF, 'build')
-EVIDENCE = os.path.join(VERIF, 'evidence')
+BUILD = os.environ.get('VERIF_BUILD', os.path.join(VERIF, 'build'))
+EVIDENCE = os.environ.get('VERIF_EVIDENCE', os.path.join(VERIF, 'evidence'))
 REPLAY = os.path.join(VERIF, 'replay')
 NCPU = int(os.environ.get('VERIF_JOBS', os.cpu_count() or 8))
 
